@@ -11,6 +11,9 @@
      partraw SUF HEX       child, serial build (one rank): ref_part_by_extension                    -> ok <pdump> | <status>
      robust_import SUF HEX | robust_translate SUF HEX | robust_part SUF HEX
                            child: import / import+export / part; prints `returned` when the C came back at all
+     ascii_import EXPECT HEX
+                           child: the bytes as hu_<pid>.ugrid (ASCII AFLR3) through ref_import_by_extension -> ok | refused
+                           (EXPECT is what the generator's own parse predicts; the driver echoes it)
      part SUF NP HEX       all ranks: ref_part_by_extension of the file written by rank 0           -> ok <pdump> | <status>
      gather SUF NP N | K {g part X Y Z}*K tri C {g g g tag}*C qua C {..} tet C {..} pyr C {..} pri C {..} hex C {..} | ...
                            one group per rank: REF_GRID with these local nodes/cells, ref_gather_by_extension -> ok HEX
@@ -421,7 +424,7 @@ done:
 }
 
 /* ---------------------------------------------------------------- readers in a child */
-/* kind: 0 read (by extension)  1 readraw  2 partraw  3 robust_import 4 robust_translate 5 robust_part */
+/* kind: 0 read (by extension)  1 readraw  2 partraw  3 robust_import 4 robust_translate 5 robust_part 6 ascii_import */
 static void child_read(int kind, int swap, int fat, const unsigned char *bytes, size_t nb) {
   REF_GRID grid = NULL;
   REF_STATUS s;
@@ -439,6 +442,10 @@ static void child_read(int kind, int swap, int fat, const unsigned char *bytes, 
       s = ref_import_bin_ugrid(&grid, mpi, fname, (REF_BOOL)swap, (REF_BOOL)fat);
       if (REF_SUCCESS != s) { ob_put(h_status((int)s)); return; }
       dump_grid(grid);
+      break;
+    case 6:
+      s = ref_import_by_extension(&grid, mpi, fname);
+      ob_put(REF_SUCCESS == s ? "ok" : "refused");
       break;
     case 2:
     case 5:
@@ -470,7 +477,7 @@ static const char *signame(int sig) {
 }
 
 static void op_child(int kind) {
-  int fd[2], status = 0, swap = 0, fat = 0, robust = kind >= 3;
+  int fd[2], status = 0, swap = 0, fat = 0, robust = (kind >= 3 && kind <= 5);
   struct rusage ru;
   pid_t pid;
   unsigned char *bytes = NULL;
@@ -485,6 +492,10 @@ static void op_child(int kind) {
     if (swap < 0 || swap > 1 || fat < 0 || fat > 1) { ob_put("bad-op"); return; }
     snprintf(fname, sizeof fname, "hu_%ld.raw", (long)getpid());
     bytes = unhex(h_w[3], &nb);
+  } else if (6 == kind) {
+    if (h_nw != 3 || (strcmp(h_w[1], "ok") && strcmp(h_w[1], "refused"))) { ob_put("bad-op"); return; }
+    snprintf(fname, sizeof fname, "hu_%ld.ugrid", (long)getpid());
+    bytes = unhex(h_w[2], &nb);
   } else {
     if (h_nw != 3 || !suf_ok(h_w[1])) { ob_put("bad-op"); return; }
     snprintf(fname, sizeof fname, "hu_%ld.%s", (long)getpid(), h_w[1]);
@@ -773,6 +784,7 @@ int main(int argc, char **argv) {
     else if (0 == strcmp(op, "robust_import")) op_child(3);
     else if (0 == strcmp(op, "robust_translate")) op_child(4);
     else if (0 == strcmp(op, "robust_part")) op_child(5);
+    else if (0 == strcmp(op, "ascii_import")) op_child(6);
     else if (0 == strcmp(op, "part")) op_part();
     else if (0 == strcmp(op, "gather")) op_gather();
     else ob_put("bad-op");
